@@ -1061,14 +1061,14 @@ class Executor:
         if self.PANIC_RE.search(callee):
             st.events.append(("call", callee, args, None))
             raise PathEnd("panic", "call to " + callee[:100] + " @ " + fr.body.name.split("::")[-1] + ":" + fr.bb)
-        # user hook first
+        # user hook first (same result protocol as the models)
+        cands = list(self.models)
         if self.on_call is not None:
-            r = self.on_call(self, st, callee, args, dest_ty)
-            if r is not None:
-                return self.finish_call(st, dest, r, ret_bb, callee, args)
-        for pat, fn in self.models:
+            hook = self.on_call
+            cands = [(re.compile(""), lambda ex_, st_, callee_, args_, dty_, m_: (lambda r_: NotImplemented if r_ is None else r_)(hook(ex_, st_, callee_, args_, dty_)))] + cands
+        for pat, fn in cands:
             m = pat.search(callee)
-            if m:
+            if m is not None:
                 r = fn(self, st, callee, args, dest_ty, m)
                 if r is NotImplemented:
                     continue
@@ -1166,7 +1166,10 @@ class Executor:
             st.events.append(("call", callee, args, val))
         fr = st.frames[-1]
         if ret_bb is None:
-            raise PathEnd("diverge", callee)
+            if re.search(r"process::exit$|process::abort$", callee):
+                raise PathEnd("diverge", callee)
+            # a call that cannot return: panic!/unreachable!/assert machinery printed under a short name
+            raise PathEnd("panic", "call to diverging `%s` @ %s:%s" % (callee[:80], fr.body.name.split("::")[-1], fr.bb))
         if dest is not None:
             self.write_place(st, dest, val)
         fr.bb = ret_bb
